@@ -169,8 +169,14 @@ impl<'a> MessageParser<'a> {
             });
         }
 
-        // Extract field content using the field_extractor module
-        let extract_result = extract_field_content(&self.input[self.position..], tag);
+        // Extract field content using the field_extractor module.
+        // Only the immediate next field may be consumed: searching ahead would silently
+        // skip (and drop) any fields standing before the requested tag.
+        let extract_result = if self.detect_field(tag) {
+            extract_field_content(&self.input[self.position..], tag)
+        } else {
+            None
+        };
 
         match extract_result {
             Some((content, consumed)) => {
